@@ -304,9 +304,16 @@ Proof.
     destruct ctrl; [cbn [fst snd]; split; [reflexivity | exact Nil]|].
     destruct (removelast (x :: t)) as [|y r] eqn:Er; [cbn [fst snd]; split; [reflexivity | exact Nil]|].
     assert (Hc' : same_core (set_buf s1 (y :: r)) (set_buf s2 (y :: r))) by (unfold same_core; cbn; auto).
-    destruct (create_related c _ _ Hc') as (O & Rn); cbn [set_buf p_buf p_uac p_memo]; auto.
-    + intros X. rewrite <- Er. apply I3_removelast; auto.
-    + intros X. rewrite <- Er, Eb. apply I3_removelast; auto.
+    assert (CR : snd (create_suggestion Q c (set_buf s1 (y :: r))) = snd (create_suggestion Q c (set_buf s2 (y :: r))) /\
+                 R c (fst (create_suggestion Q c (set_buf s1 (y :: r)))) (fst (create_suggestion Q c (set_buf s2 (y :: r))))).
+    { apply (create_related c _ _ Hc'); cbn [set_buf p_buf p_uac p_memo]; auto.
+      + intros X. rewrite <- Er. apply I3_removelast; auto.
+      + intros X. rewrite <- Er, Eb. apply I3_removelast; auto. }
+    destruct CR as (O & Rn). cbn zeta. rewrite <- O.
+    destruct (out_empty (snd (create_suggestion Q c (set_buf s1 (y :: r))))); cbn [fst snd]; [|split; [exact O | exact Rn]].
+    split; [reflexivity|].
+    destruct Rn as (Hc2 & (I2a & _) & (I2b & _)). destruct Hc2 as (_ & Eu2 & El2).
+    split; [unfold same_core; cbn; auto|]. split; apply good_set_buf_nil; assumption.
 Qed.
 
 Lemma bisim_commit c s1 s2 i :
